@@ -32,6 +32,13 @@
 #include "nmtools/array/view/squeeze.hpp"
 #include "nmtools/array/view/pad.hpp"
 #include "nmtools/array/view/concatenate.hpp"
+#include "nmtools/array/view/tril.hpp"
+#include "nmtools/array/view/triu.hpp"
+#include "nmtools/array/view/eye.hpp"
+#include "nmtools/array/view/expand.hpp"
+#include "nmtools/array/view/diagonal.hpp"
+#include "nmtools/array/view/take.hpp"
+#include "nmtools/array/view/sliding_window.hpp"
 #include "nmtools/array/view/matmul.hpp"
 #include "nmtools/array/view/sum.hpp"
 #include "nmtools/array/view/mean.hpp"
@@ -96,6 +103,18 @@ void drive_compare(const arr_id& a, const arr_id& b, const arr_if& c, const arr_
     auto s1 = nm::utils::isclose(x,y); auto s2 = nm::utils::isclose(p,q); auto s3 = nm::utils::isclose(x,p);
     auto t1 = nm::utils::isequal(l1,l1); auto t2 = nm::utils::isequal(l1,l2); auto t3 = nm::utils::isequal(l2,l3); auto t4 = nm::utils::isequal(l3,l1);
     (void)r1;(void)r2;(void)r3;(void)r4;(void)r5;(void)s1;(void)s2;(void)s3;(void)t1;(void)t2;(void)t3;(void)t4;
+}
+// indexing views whose index function returns a maybe/either (fill positions): the element access path must test before it dereferences
+void drive_fill_views(const M<arr_d>& ma, const arr_d& a, const arr_f& af, const nmtools_list<size_t>& pw, const nmtools_array<size_t,6>& pwf, int axis)
+{
+    auto p1 = view::pad(a, pw, 0.f); auto p2 = view::pad(af, pwf, 0.f); auto p3 = view::pad(ma, pw, 0.f);
+    auto t1 = view::tril(a, 0); auto t2 = view::triu(af, 1); auto t3 = view::tril(ma, 0);
+    auto e1 = view::expand(a, axis, (size_t)1, 0.f); auto e2 = view::expand(af, axis, (size_t)2, 0.f);
+    auto d1 = view::diagonal(af, 0, 0, 1); auto d2 = view::diagonal(a, 1, 0, 1);
+    auto k1 = view::take(a, nmtools_list<int>{0,1}, axis); auto s1 = view::sliding_window(a, (size_t)2, axis);
+    auto w1 = na::eval(p1); auto w2 = na::eval(p2); auto w3 = na::eval(p3); auto w4 = na::eval(t1); auto w5 = na::eval(t2); auto w6 = na::eval(t3);
+    auto w7 = na::eval(e1); auto w8 = na::eval(e2); auto w9 = na::eval(d1); auto w10 = na::eval(d2); auto w11 = na::eval(k1); auto w12 = na::eval(s1);
+    (void)w1;(void)w2;(void)w3;(void)w4;(void)w5;(void)w6;(void)w7;(void)w8;(void)w9;(void)w10;(void)w11;(void)w12;
 }
 void drive_kernel(float* out, const size_t* shp, const M<arr_d>& ma, const arr_d& a, na::kernel_size<size_t> t)
 {
